@@ -24,6 +24,9 @@ fn impls(level: u8) -> Vec<u8> {
 fn stats_for(prop: &str) -> TreeStats {
     if prop == "C07" {
         TreeStats::new(false, false, true)
+    } else if prop == "C14" || prop == "C05" {
+        // only panics (C14) / memory faults (C05) are judged
+        TreeStats::new(false, false, false)
     } else {
         // C06 judges values and size_hint; C09/C14/C05 runs judge everything
         TreeStats::new(true, prop != "C07", prop != "C06")
@@ -63,6 +66,7 @@ fn explore_all(
         match r {
             Ok(Ok(())) => {}
             Ok(Err(e)) => return Some(viol(ctx, bytes::IMPL_NAMES[imp as usize], needles, placed, place, &e)),
+            Err(_) if ctx.prop == "C05" => {}
             Err(p) => return Some(viol(ctx, bytes::IMPL_NAMES[imp as usize], needles, placed, place, &format!("panic: {}", panic_msg(&p)))),
         }
     }
@@ -77,6 +81,7 @@ fn explore_all(
     match r {
         Ok(Ok(())) => None,
         Ok(Err(e)) => Some(viol(ctx, "top-rev", needles, placed, place, &e)),
+        Err(_) if ctx.prop == "C05" => None,
         Err(p) => Some(viol(ctx, "top-rev", needles, placed, place, &format!("panic: {}", panic_msg(&p)))),
     }
 }
